@@ -106,5 +106,7 @@ package keeper
 //@   modifies world(ctx)
 //@   ensures async_present: err == nil ==> get(S0, asyncKey) != ""
 //@   ensures async_removed: err == nil ==> !has(store(ctx), asyncKey)
+//@   ensures fail_unchanged: err != nil ==> world(ctx) == old(world(ctx))
+//@   ensures only_store: err == nil ==> world(ctx) == withKV(old(world(ctx)), k.storeService, store(ctx))
 //@   ensures write_once: err == nil ==> get(S0, hostv2.PacketAcknowledgementKey(pkt.DestinationClient, pkt.Sequence)) == ""
 //@   ensures frame: err == nil ==> store(ctx) == del(set(S0, hostv2.PacketAcknowledgementKey(pkt.DestinationClient, pkt.Sequence), types.CommitAcknowledgement(ack)), asyncKey)
